@@ -88,6 +88,9 @@ BigFrame(shape) ==
   CASE shape = "flowstats" -> Enc([T |-> "MultipartReply", Header |-> H(7), Type |-> <<0, 1>>, Flags |-> <<0, 0>>,
                                    Body |-> [i \in 1..1169 |-> FlowStatsTree(<<>>, <<>>, i % 190)]])            \* 16 + 1169 * 56 = 65480
     [] shape = "flowstats-instr" -> Enc([T |-> "MultipartReply", Header |-> H(8), Type |-> <<0, 1>>, Flags |-> <<0, 1>>,
+                                   Body |-> [i \in 1..540 |-> FlowStatsTree(<< <<DecMF(i), FALSE>> >>, InstrTrees(1 + (i % 3), i % 150), i % 190)]])
+    \* a byte string longer than any OpenFlow message (the 16-bit header length wraps): Parse is handed "any byte string whatsoever"
+    [] shape = "overlong" -> Enc([T |-> "MultipartReply", Header |-> H(8), Type |-> <<0, 1>>, Flags |-> <<0, 1>>,
                                    Body |-> [i \in 1..680 |-> FlowStatsTree(<< <<DecMF(i), FALSE>> >>, InstrTrees(1 + (i % 3), i % 150), i % 190)]])
     [] shape = "portdesc" -> Enc([T |-> "MultipartReply", Header |-> H(9), Type |-> <<0, 13>>, Flags |-> <<0, 0>>, Body |-> [i \in 1..1023 |-> PortTree(i % 180)]])
     [] shape = "error" -> Enc([T |-> "ErrorMsg", Header |-> H(10), Type |-> <<0, 2>>, Code |-> <<0, 1>>, Data |-> [T |-> "Buffer", B |-> V(11, 65535 - 12)]])
@@ -95,7 +98,7 @@ BigFrame(shape) ==
     [] shape = "flowmod" -> Enc(FlowModEl("m", 0, <<>>, <<InstrActs("i1", "apply", [i \in 1..4000 |-> <<LeafAct("a", "output", i % 200), FALSE>>])>>, 13).tree)
     [] shape = "groupmod" -> Enc(GroupModEl("m", 0, 1, [i \in 1..1500 |-> BucketEl("b", <<LeafAct("a", "group", i % 200)>>, i % 200)], 14).tree)
     [] shape = "pktout" -> Enc(PacketOutEl("m", <<LeafAct("a1", "output", 15)>>, 65535 - 24 - 16, 15).tree)
-BigShapes == {"flowstats", "flowstats-instr", "portdesc", "error", "hello", "flowmod", "groupmod", "pktout"}
+BigShapes == {"flowstats", "flowstats-instr", "overlong", "portdesc", "error", "hello", "flowmod", "groupmod", "pktout"}
 NextBIG == \E shape \in BigShapes : c' = <<shape>> /\ EmitBig(shape, BigFrame(shape))
 Init == c = <<>>
 Next == c = <<>> /\ CASE Family = "EB" -> NextEB [] Family = "SW" -> NextSW [] Family = "XO" -> NextXO [] Family = "PI" -> NextPI [] Family = "MP" -> (NextMP \/ NextMPmin) [] Family = "CT" -> NextCT [] Family = "BIG" -> NextBIG
